@@ -237,6 +237,22 @@ def block_containers(block: bytes, txs: list[bytes]) -> list[bytes]:
     return out
 
 
+def block_shapes(block: bytes) -> list[bytes]:
+    """Blocks of every header version class around the BIP34 switch whose coinbase script_sig is each short form a length field allows: empty,
+    one op code (OP_0, OP_1, OP_16, OP_1NEGATE), a push that lacks its data, a push of 0..9 octets, an OP_PUSHDATA1 head.  Only an object
+    parsed with check_validity off can hold most of them, and every property of that object (height included) is then asked for."""
+    hdr = block[:80]
+    out = []
+    scripts = [b"", b"\x00", b"\x51", b"\x60", b"\x4f", b"\x01", b"\x03\x01", b"\x4c", b"\x4c\x05\x00", b"\x4e\xff\xff\xff\x7f", b"\xff", b"\x01\x80", b"\x08" + b"\xff" * 8,
+               b"\x09" + b"\x01" * 9, b"\x03\x40\x0d\x03", b"\x00\x00", b"\x01\x00\x51"]
+    for version in (1, 2, 3, 4, 0x20000000, 0xFFFFFFFF, 0):
+        for sc in scripts:
+            for prev in (bytes(32) + b"\xff" * 4, bytes(32) + bytes(4), bytes(range(32)) + b"\xff" * 4):
+                cb = b"\x01\x00\x00\x00" + b"\x01" + prev + bytes([len(sc)]) + sc + b"\xff" * 4 + b"\x01" + (50 * 10**8).to_bytes(8, "little") + b"\x01\x51" + bytes(4)
+                out.append(version.to_bytes(4, "little") + hdr[4:] + b"\x01" + cb)
+    return out
+
+
 def function_seeds() -> dict[str, list[bytes]]:
     """Valid inputs of the function parsers (what the class seeds are to the class parsers)."""
     from btclib import base58, bech32
@@ -318,6 +334,9 @@ def text_entry_points() -> dict[str, Callable[[str], Any]]:
     eps["slip39.share_from_mnemonic"] = slip39.share_from_mnemonic
     eps["slip39.master_secret_from_mnemonics"] = lambda s: slip39.master_secret_from_mnemonics([s, s], "")
     eps["bip322.verify(sig text)"] = lambda s: bip322.verify(b"m", "bc1q9vza2e8x573nczrlzms0wvx3gsqjx7vavgkx0l", s)
+    from btclib import tx_or_psbt
+
+    eps["tx_or_psbt_from_any"] = tx_or_psbt.tx_or_psbt_from_any
     return eps
 
 
@@ -363,6 +382,10 @@ def dict_entry_points() -> dict[str, tuple[Any, Any]]:
             out["PsbtOut"] = (PsbtOut.from_dict, best_out)
     except Exception:  # noqa: BLE001
         pass
+    # the one from_dict that is not a wire object: a network description
+    from btclib.network import NETWORKS, Network
+
+    out["Network"] = (Network.from_dict, json.loads(json.dumps(NETWORKS["mainnet"].to_dict())))
     return out
 
 
@@ -397,13 +420,24 @@ def mutate_json(d: Any, rnd: random.Random, budget: int) -> list[Any]:
         y[path[0]] = put(x[path[0]], path[1:], val, drop)
         return y
 
+    def get(x: Any, path: list[Any]) -> Any:
+        for k in path:
+            x = x[k]
+        return x
+
+    first: list[Any] = []
     for p in paths:
         for v in CONFUSIONS:
             out.append(put(d, p, v))
         if p:
             out.append(put(d, p, None, drop=True))
+        cur = get(d, p)
+        if isinstance(cur, list) and cur:
+            # a list that names one thing twice, that holds one element more of another type, that comes in another order:
+            # what the byte form refuses as a duplicate key has to be refused (or answered) here too, never left to a dict underneath
+            first += [put(d, p, cur + [cur[0]]), put(d, p, [cur[0]] + cur), put(d, p, cur[::-1]), put(d, p, cur + [None]), put(d, p, cur * 40)]
     rnd.shuffle(out)
-    return out[:budget]
+    return first + out[: max(0, budget - len(first))]
 
 
 HOSTILE_TEXT = ["", " ", "\x00", "1", "q" * 100, "1" * 5000, "bc1" + "q" * 90, "BC1SW50QA3JX3S", "tb1q", "xprv" + "1" * 107, "é" * 10, "\ud800", "\U0001F600" * 4, "a\x00b",
@@ -667,6 +701,34 @@ def index_entry_points() -> dict[str, Callable[[Any], Any]]:
     }
 
 
+def length_entry_points() -> list[tuple[str, Callable[[], Any]]]:
+    """Functions given lists that run parallel to the inputs of a transaction (previous outputs, amounts): every length of the lists x every
+    position x every hash type is answered or refused, never an IndexError from the shorter list."""
+    from btclib.script import sig_hash
+    from btclib.script.engine import verify_input, verify_transaction
+    from btclib.script.script_pub_key import ScriptPubKey
+    from btclib.tx import OutPoint, Tx, TxIn, TxOut
+
+    spk = ScriptPubKey(bytes.fromhex("5120" + "11" * 32))
+    v0 = ScriptPubKey(bytes.fromhex("0014" + "11" * 20))
+    out: list[tuple[str, Callable[[], Any]]] = []
+    for n_in in (1, 3):
+        tx = Tx(2, 0, [TxIn(OutPoint(bytes(range(32)), k), b"", 0xFFFFFFFD) for k in range(n_in)], [TxOut(1000, spk)] * 2)
+        for ln in range(0, n_in + 3):
+            prev = [TxOut(5000 + k, spk) for k in range(ln)]
+            prev0 = [TxOut(5000 + k, v0) for k in range(ln)]
+            for i in range(-1, n_in + 2):
+                for ht in (0, 1, 2, 3, 0x81, 0x82, 0x83):
+                    tag = f"{n_in} inputs, {ln} previous outputs, position {i}, hash type {ht:#x}"
+                    out.append((f"sig_hash.taproot [{tag}]", lambda tx=tx, i=i, prev=prev, ht=ht: sig_hash.taproot(tx, i, prev, ht, 0, b"", b"")))
+                    out.append((f"sig_hash.taproot script path [{tag}]", lambda tx=tx, i=i, prev=prev, ht=ht: sig_hash.taproot(tx, i, prev, ht, 1, b"", b"\x51")))
+                    if ht:
+                        out.append((f"sig_hash.from_tx [{tag}]", lambda tx=tx, i=i, prev0=prev0, ht=ht: sig_hash.from_tx(prev0, tx, i, ht)))
+                out.append((f"engine.verify_input [{n_in} inputs, {ln} previous outputs, position {i}]", lambda tx=tx, i=i, prev=prev: verify_input(prev, tx, i)))
+            out.append((f"engine.verify_transaction [{n_in} inputs, {ln} previous outputs]", lambda tx=tx, prev=prev: verify_transaction(prev, tx)))
+    return out
+
+
 def predicates() -> dict[str, Callable[[Any], Any]]:
     """verify-style predicates: each takes one hostile argument in the position that is attacker-controlled."""
     from btclib.curves import mult
@@ -928,6 +990,13 @@ def check(run: Run) -> None:
                         exercised += 1
                         for cn, oc2, v2 in exercise(val):
                             rec("consumer", cn, m.hex(), oc2, v2)
+        if base == "Block":
+            for m in block_shapes(srcs[0]):
+                oc, val = classify(lambda: f(m))
+                rec("parser", ep, m.hex(), oc, val)
+                if oc == "returned" and val is not None:
+                    for cn, oc2, v2 in exercise(val):
+                        rec("consumer", cn, m.hex(), oc2, v2)
         # streams: an accepted object read off a longer stream; the stream ends on the byte after it and nothing beyond was read.
         # needed = the shortest prefix that parses to the same object (found from the stream's own position: that prefix parses
         # to an equal object and one byte less does not)
@@ -1018,6 +1087,9 @@ def check(run: Run) -> None:
         for k in hostile_pos:
             oc, val = classify(lambda: f3(k))
             rec("parser", "index:" + ep, repr(k), oc, val)
+    for ep, f4 in length_entry_points():
+        oc, val = classify(f4)
+        rec("parser", "lengths:" + ep.split(" [")[0], ep, oc, val)
     # 7. spellings: the octets of a valid call given as a bytearray and as a memoryview answer as the bytes do
     def _norm(x: Any) -> Any:
         if isinstance(x, (bytearray, memoryview)):
